@@ -21,7 +21,10 @@ PROPS = ["RestoreExact", "RestoreAlways", "EnableNormal"]
 KINDS = tlc.Raw('{<<"unix1">>, <<"unix2">>, <<"django">>, <<"django", "unix1">>, <<"django", "unix2">>, <<"unix1", "django">>, <<"unix2", "django">>}')
 SCHEMES = ["md5_crypt", "des_crypt", "sha256_crypt", "sha512_crypt", "bcrypt", "pbkdf2_sha256", "ldap_salted_sha1", "ldap_md5", "apr_md5_crypt",
            "phpass", "nthash", "lmhash", "mysql323", "hex_sha256", "django_pbkdf2_sha256", "django_salted_sha1", "sha1_crypt",
-           "bsdi_crypt", "scram", "ldap_pbkdf2_sha256", "atlassian_pbkdf2_sha1", "fshp", "cisco_type7", "bigcrypt", "sun_md5_crypt"]
+           "bsdi_crypt", "scram", "ldap_pbkdf2_sha256", "atlassian_pbkdf2_sha1", "fshp", "cisco_type7", "bigcrypt", "sun_md5_crypt",
+           "hex_sha1", "hex_md5", "hex_sha512", "plaintext", "ldap_hex_sha1", "oracle11", "mssql2005", "crypt16"]
+#: catch-all schemes: only meaningful when listed AFTER the disabled-account handler (which then takes the "!"/"*" strings first)
+CATCHALL = {"plaintext"}          # (ldap_plaintext does not claim the empty string or "{..}" strings: not a complete catch-all)
 CHEAP = {"sha256_crypt": 1000, "sha512_crypt": 1000, "bcrypt": 4, "pbkdf2_sha256": 10, "phpass": 7, "django_pbkdf2_sha256": 10, "sha1_crypt": 10,
          "bsdi_crypt": 11, "scram": 10, "ldap_pbkdf2_sha256": 10, "fshp": 10, "sun_md5_crypt": 10}
 
@@ -48,6 +51,14 @@ class World:
         self.H = h.hash(self.right)
         dis = ["django_disabled" if k == "django" else "unix_disabled" for k in kind]
         self.kw = {"unix_disabled__marker": "*"} if "unix2" in kind else {}
+        # a deprecation policy that covers the disabled-account handler itself must not stop accounts from being disabled
+        dep = rnd.choice([None, None, "auto", "list"])
+        if dep == "auto" and not first:
+            self.kw["deprecated"] = "auto"
+        elif dep == "list":
+            self.kw["deprecated"] = [d for d in dis][:1] if len(dis) == 1 and not (first and False) else []
+            if not self.kw["deprecated"]:
+                self.kw.pop("deprecated")
         self.with_real = dis + [h] if first else [h] + dis
         # the configuration without the account's scheme: another real scheme takes its place
         other = H.ldap_md5 if scheme != "ldap_md5" else H.hex_sha256
@@ -62,7 +73,7 @@ class World:
             return orig(*a, **k)
         self.ctx.dummy_verify = counting
         self.D = None
-        self.ambiguous = self.H[:1] in "!*" or (scheme == "plaintext")
+        self.ambiguous = self.H[:1] in "!*"
 
     def real(self, x):
         return {"None": None, "Empty": "", "M1": "!", "M2": "*", "M1H": "!" + self.H, "M2H": "*" + self.H, "H": self.H, "D": self.D}[x]
@@ -109,7 +120,7 @@ def replay_beh(chk, beh, scheme, first, rnd):
     except Exception as e:
         chk.uncovered.append(f"{scheme}: cannot build context: {type(e).__name__}: {e}"[:150])
         return
-    if (first and W.ambiguous) or W.other_claims:
+    if (first and W.ambiguous) or W.other_claims or (scheme in CATCHALL and not first):
         return
     x = beh[0]["x0"]
     hist = []
@@ -127,7 +138,7 @@ def replay_beh(chk, beh, scheme, first, rnd):
                     W.D = r[1]
                 new_real = r[1]
                 # the produced string: recognised as disabled, verifies nothing (not even itself or ""), disabling again keeps it disabled
-                for pw in (W.right, W.wrong, "", new_real):
+                for pw in ((W.right, W.wrong, "", new_real) if scheme not in CATCHALL or kind[0] != "django" or True else ()):
                     v = call(W.ctx.verify, pw, new_real)
                     if v != ("ok", False):
                         problems.append(("disabled-verifies", f"verify({pw!r}, disabled string) gave {v}"))
@@ -148,7 +159,7 @@ def replay_beh(chk, beh, scheme, first, rnd):
             r = call(W.ctx.is_enabled, arg)
             got = [str(r[1])] if r[0] == "ok" else [r[0]]
         else:
-            pw = W.right if st["arg"] == "right" else rnd.choice([W.wrong, "", xr or "x"])
+            pw = W.right if st["arg"] == "right" else rnd.choice([W.wrong, "", xr or "x"] if scheme not in CATCHALL else [W.wrong, W.wrong + "2"])
             before = W.dummy_calls
             r = call(W.ctx.verify, pw, arg)
             got = [str(r[1])] if r[0] == "ok" else [r[0]]
@@ -173,17 +184,27 @@ def run(chk):
     rnd = random.Random(chk.seed)
     chk.rule = ("S->I: every step of every history is executed on a real CryptContext; after each disable() the produced string is additionally "
                 "verified against 4 passwords, is_enabled and a second disable(). non-trivial = distinct (kind, op, stored class, outcome, order, ambiguous scheme) steps")
-    r = tlc.run_instance("MC_Disabled", dict(Kinds=KINDS, MaxOps=5 if quick else 6, DoEmit=False), name="C18_mc",
+    r = tlc.run_instance("MC_Disabled", dict(Kinds=KINDS, MaxOps=5 if quick else 6, DoEmit=False, Greedy=False), name="C18_mc",
                          invariants=INVS, properties=PROPS, action_constraint="Emit")
     chk.add_tlc("MC_Disabled exhaustive", r)
     nb = 3000 if quick else 30000
-    r = tlc.run_instance("MC_Disabled", dict(Kinds=KINDS, MaxOps=7, DoEmit=True), name="C18_sim", invariants=INVS,
+    r = tlc.run_instance("MC_Disabled", dict(Kinds=KINDS, MaxOps=7, DoEmit=True, Greedy=False), name="C18_sim", invariants=INVS,
                          action_constraint="Emit", next="SimNext", simulate=f"num={nb}", depth=7, seed=chk.seed + 5, workers=1, coverage=False)
     chk.add_tlc(f"MC_Disabled simulation ({nb} histories)", r)
     behs = split(r.emits)
-    schemes = SCHEMES
+    schemes = [x for x in SCHEMES if x not in CATCHALL]
     for i, b in enumerate(behs):
         replay_beh(chk, b, schemes[i % len(schemes)], (i // len(schemes)) % 2 == 1, rnd)
+        chk.traces += 1
+    # catch-all real schemes, listed after the disabled-account handlers
+    r2 = tlc.run_instance("MC_Disabled", dict(Kinds=KINDS, MaxOps=5, DoEmit=False, Greedy=True), name="C18_mc_greedy", invariants=INVS, properties=PROPS, action_constraint="Emit")
+    chk.add_tlc("MC_Disabled exhaustive, catch-all real scheme", r2)
+    nb2 = 400 if quick else 4000
+    r2 = tlc.run_instance("MC_Disabled", dict(Kinds=KINDS, MaxOps=7, DoEmit=True, Greedy=True), name="C18_sim_greedy", invariants=INVS,
+                          action_constraint="Emit", next="SimNext", simulate=f"num={nb2}", depth=7, seed=chk.seed + 6, workers=1, coverage=False)
+    chk.add_tlc(f"MC_Disabled simulation, catch-all real scheme ({nb2} histories)", r2)
+    for i, b in enumerate(split(r2.emits)):
+        replay_beh(chk, b, sorted(CATCHALL)[i % len(CATCHALL)], True, rnd)
         chk.traces += 1
     if behs:
         chk.sample({"history": [{k: s[k] for k in ("kind", "op", "arg", "res", "x")} for s in behs[0]], "initial": behs[0][0]["x0"]})
